@@ -4,6 +4,7 @@ import (
 	"bytes"
 	"fmt"
 	"io"
+	"sort"
 	"strconv"
 	"time"
 )
@@ -181,12 +182,19 @@ func marshalMap(w io.Writer, v map[string]interface{}) error {
 		return err
 	}
 
-	for key, val := range v {
+	// BEP 3: keys must appear in sorted order (sorted as raw strings).
+	keys := make([]string, 0, len(v))
+	for key := range v {
+		keys = append(keys, key)
+	}
+	sort.Strings(keys)
+
+	for _, key := range keys {
 		if err := marshalString(w, key); err != nil {
 			return err
 		}
 
-		if err := marshal(w, val); err != nil {
+		if err := marshal(w, v[key]); err != nil {
 			return err
 		}
 	}
